@@ -11,12 +11,19 @@ using vf::Case; using vf::Op;
 
 namespace {
 
-struct Spec { int lg_k, type; bool full; uint32_t start, n; };
+struct Spec { int lg_k, type; bool full; uint32_t start, n; uint32_t hp = 0; };  // hp: low 3 bits = number of high-value keys (registers >= 15), rest = first pool index
 
 hll_sketch build_sketch(const Spec& sp, std::set<uint32_t>* coupons) {
   hll_sketch sk(static_cast<uint8_t>(sp.lg_k), static_cast<target_hll_type>(sp.type), sp.full);
   for (uint32_t i = 0; i < sp.n; ++i) {
     int64_t key = static_cast<int64_t>(sp.start) + i;
+    sk.update(key);
+    if (coupons) coupons->insert(vf::ref_hll_coupon(vf::ref_hash_i64(key, 9001)));
+  }
+  // keys whose register value is >= 15: with cur_min > 0 an HLL_4 input then carries exception registers
+  const auto& pool = vf::high_pool().keys;
+  for (uint32_t j = 0; j < (sp.hp & 7u); ++j) {
+    int64_t key = pool[((sp.hp >> 3) + j) % pool.size()].first;
     sk.update(key);
     if (coupons) coupons->insert(vf::ref_hll_coupon(vf::ref_hash_i64(key, 9001)));
   }
@@ -103,7 +110,9 @@ void prop(const Case& cs) {
   auto model_sketch = [&](const Spec& sp) {
     std::set<uint32_t> c;
     hll_sketch sk = build_sketch(sp, &c);
-    int mode = parse(sk).mode;
+    vf::HllImage im0 = parse(sk);
+    int mode = im0.mode;
+    if (mode == 2 && !im0.aux.empty()) vf::label(im0.cur_min > 0 ? "input:HLL_4-exceptions-cur-min>0" : "input:HLL_4-exceptions");
     for (auto x : c) st.m.add(x);
     if (mode == 2 && !sk.is_empty()) {
       if (st.hll_inputs == 0 && sp.lg_k > st.lg_max_k) st.downsample_before_second = true;
@@ -126,6 +135,7 @@ void prop(const Case& cs) {
       sp.start = static_cast<uint32_t>(op.uarg(3) % 6000);
       uint64_t n = op.uarg(4);
       sp.n = static_cast<uint32_t>(n % 200001);
+      sp.hp = op.a.size() > 5 ? static_cast<uint32_t>(op.uarg(5) % 2048) : 0;
       specs.push_back(sp);
       continue;
     }
@@ -199,7 +209,12 @@ void prop(const Case& cs) {
     if (total <= 700000) {
       hll_sketch direct(static_cast<uint8_t>(st.lg_k), HLL_8, ia.mode == 2);
       for (const Step& s : st.steps) {
-        if (s.kind == 0) { const Spec& sp = specs[s.idx]; for (uint32_t i = 0; i < sp.n; ++i) direct.update(static_cast<int64_t>(sp.start) + i); }
+        if (s.kind == 0) {
+          const Spec& sp = specs[s.idx];
+          for (uint32_t i = 0; i < sp.n; ++i) direct.update(static_cast<int64_t>(sp.start) + i);
+          const auto& pool = vf::high_pool().keys;
+          for (uint32_t j = 0; j < (sp.hp & 7u); ++j) direct.update(pool[((sp.hp >> 3) + j) % pool.size()].first);
+        }
         else if (s.kind == 1) vf::feed(direct, s.item);
         else for (uint64_t i = 0; i < s.bulk_n; ++i) direct.update(static_cast<int64_t>(s.bulk_start + i));
       }
@@ -223,7 +238,8 @@ rc::Gen<Case> gen_main() {
   // n: mostly sizes that matter for mode transitions at the given lg_k; start_full_size makes HLL mode cheap at large lg_k
   auto nGen = rc::gen::weightedOneOf<int64_t>({{1, range(0, 0)}, {1, range(1, 7)}, {2, range(8, 200)}, {6, range(200, 5000)}, {1, range(5000, 200000)}});
   auto skBase = op4("sk", rc::gen::weightedOneOf<int64_t>({{5, range(0, 6)}, {2, range(7, 12)}, {1, range(13, 17)}}), range(0, 2), range(0, 3), range(0, 5999));
-  auto sk = rc::gen::map(rc::gen::tuple(skBase, nGen), [](std::tuple<Op, int64_t> t) { Op o = std::get<0>(t); o.a.push_back(std::get<1>(t)); return o; });
+  auto hpGen = rc::gen::weightedOneOf<int64_t>({{1, range(0, 0)}, {1, range(0, 2047)}});
+  auto sk = rc::gen::map(rc::gen::tuple(skBase, nGen, hpGen), [](std::tuple<Op, int64_t, int64_t> t) { Op o = std::get<0>(t); o.a.push_back(std::get<1>(t)); o.a.push_back(std::get<2>(t)); return o; });
   auto hist = choose({
       {8, op2("u_sk", range(0, 5), range(0, 1))},
       {2, op2("u_raw", range(0, T_NTYPES - 1), raw_gen())},
